@@ -102,7 +102,11 @@ Definition dexec (l : list effect) : list string :=
   dlist (dedup_sorted (sort_strings (flat_map (fun x => match x with EExec s => [s] | _ => [] end) l))).
 
 Definition dres (c : ccase) (ep : nat) (x : res dag * envt * list effect) : list string :=
-  (match outcome x with Panic => ["P"] | Err => ["E"] | Ok g => if Nat.eqb (cc_mode c) 0 then ddag c ep g else ["O"] end)
+  (match outcome x with
+   | Panic => ["P"]
+   | Err => if Nat.eqb (cc_mode c) 0 then ["E"] else ["N"]      (* C19 looks at effects: panic / no panic only *)
+   | Ok g => if Nat.eqb (cc_mode c) 0 then ddag c ep g else ["N"]
+   end)
   ++ "ENV" :: denv c (effects x)
   ++ (if Nat.eqb (cc_mode c) 0 then [] else "EXEC" :: dexec (effects x)).
 
